@@ -249,6 +249,7 @@ func runC18(c *Ctx) {
 	c18SortedBeforeRead(c)
 	c18Comparators(c)
 	c18Idempotence(c)
+	c18EmittedDeclsMarked(c)
 
 	c.R.Rule("sequential", "the generator packages contain no go statement (scheduling and GOMAXPROCS cannot influence gqlgen's own generator code)", 1)
 	ngo := 0
